@@ -23,6 +23,7 @@ class Universe:
         a_ops = [x for x in by_key['A'] if x[1] > 1000]
         b_ops = [x for x in by_key['B'] if x[1] > 1000]
         u1, u2, u3 = a_ops[0], b_ops[0], a_ops[1]
+        zero = [x for x in by_key['A'] if x[1] == 0][0]      # a confirmed output of value 0
         S = SCRIPTS
 
         def spend(ins, outs):
@@ -34,7 +35,7 @@ class Universe:
         t3 = spend([(t2.txid, 0)], [('D', u1[1] // 2 - 300), ('R', 0)])
         t4 = spend([u2[0], (t1.txid, 2)], [('A', u2[1] + u1[1] // 2 - 900)])
         t5 = Tx([(bytes(32), 0xffffffff, b'\x02\x51\x52', 0xffffffff)], [(777, S['B'])])
-        t6 = spend([u3[0]], [('A', 1000), ('A', 2000), ('A', u3[1] - 4000)])
+        t6 = spend([u3[0], zero[0]], [('A', 1000), ('A', 2000), ('A', u3[1] - 4000)])
         t7 = spend([col1], [('D', 25_0000_0000 - 50)])
         self.txs = dict(zip(NAMES, [t1, t2, t3, t4, t5, t6, t7]))
         self.by_id = {t.txid: n for n, t in self.txs.items()}
